@@ -22,6 +22,7 @@ if os.path.exists(wt + "/SEEDED.md"):
     shutil.copy(wt + "/SEEDED.md", out + "/SEEDED.md")
 meta = {"property": prop, "worktree_commit": sh("git rev-parse --short HEAD", cwd=wt)[1].strip(), "demo_files": demos, "ran": []}
 base = "/tmp/test_gobeansdb_seed_" + name
+os.makedirs(base, exist_ok=True)
 tags = "-tags verif" if any("verifhook" in open(os.path.join(wt, d)).read() for d in demos) else ""
 def demo():
     res = {}
